@@ -74,7 +74,7 @@ func checkC15(w *World, r *Report) {
 	r.Trusted = []string{"fmt.Errorf %w semantics", "range over a slice visits elements in index order"}
 
 	load := w.ssaFunc(w.method("Engine", "Load"))
-	name := ssaName(load)
+	_ = ssaName(load)
 	// Engine.Load and the unexported helpers it is split into
 	parts := w.loadPartsSet()
 	var partList []*ssa.Function
@@ -95,37 +95,47 @@ func checkC15(w *World, r *Report) {
 
 	// ---- R15.1: the `template == nil` branch
 	n1 := 0
+	// the test may sit in Load itself or in the part that holds the loader loop
 	var nilRegion *ssa.BasicBlock
-	for _, b := range load.Blocks {
-		v, trueIdx, ok := ifCond(b)
-		if !ok {
-			continue
-		}
-		bo, ok := v.(*ssa.BinOp)
-		if !ok || (bo.Op != token.EQL && bo.Op != token.NEQ) || !isNilConst(bo.Y) || !isNamed(bo.X.Type(), twigPath, "Template") {
-			continue
-		}
-		_, isPhi := bo.X.(*ssa.Phi)
-		fromPart := false
-		if ex, ok := bo.X.(*ssa.Extract); ok {
-			if c, ok := ex.Tuple.(*ssa.Call); ok {
-				if g := c.Call.StaticCallee(); g != nil && parts[g] && hasLoaderLoop(g) {
-					fromPart = true
+	nilFn := load
+	for _, part := range partList {
+		for _, b := range part.Blocks {
+			v, trueIdx, ok := ifCond(b)
+			if !ok {
+				continue
+			}
+			bo, ok := v.(*ssa.BinOp)
+			if !ok || (bo.Op != token.EQL && bo.Op != token.NEQ) || !isNilConst(bo.Y) || !isNamed(bo.X.Type(), twigPath, "Template") {
+				continue
+			}
+			_, isPhi := bo.X.(*ssa.Phi)
+			fromPart := false
+			if ex, ok := bo.X.(*ssa.Extract); ok {
+				if c, ok := ex.Tuple.(*ssa.Call); ok {
+					if g := c.Call.StaticCallee(); g != nil && parts[g] && hasLoaderLoop(g) {
+						fromPart = true
+					}
 				}
 			}
-		}
-		if !isPhi && !fromPart {
-			continue // the cached-template tests compare a lookup result, not the loop's result
-		}
-		nilRegion = b.Succs[trueIdx]
-		if bo.Op == token.NEQ {
-			nilRegion = b.Succs[1-trueIdx]
+			if !isPhi && !fromPart {
+				continue // the cached-template tests compare a lookup result, not the loop's result
+			}
+			// prefer the test in the function that also holds the loader loop / calls it directly
+			if nilRegion != nil && part != load && !hasLoaderLoop(part) {
+				continue
+			}
+			nilFn = part
+			nilRegion = b.Succs[trueIdx]
+			if bo.Op == token.NEQ {
+				nilRegion = b.Succs[1-trueIdx]
+			}
 		}
 	}
 	if nilRegion == nil {
-		cannotDecide("R15.1: the `template == nil` test after the loader loop was not found in Engine.Load")
+		cannotDecide("R15.1: the `template == nil` test after the loader loop was not found in Engine.Load or its parts")
 	}
-	instrsOf(load, func(in ssa.Instruction) {
+	nilName := ssaName(nilFn)
+	instrsOf(nilFn, func(in ssa.Instruction) {
 		switch x := in.(type) {
 		case *ssa.Return:
 			if !(nilRegion == x.Block() || nilRegion.Dominates(x.Block())) {
@@ -133,10 +143,10 @@ func checkC15(w *World, r *Report) {
 			}
 			n1++
 			res := retResults(x)
-			if len(res) == 2 && wrapsNotFound(res[1]) {
-				r.ok("R15.1", name, "not-found return wraps ErrTemplateNotFound", w.posOf(x.Pos()), "fmt.Errorf with %w bound to ErrTemplateNotFound", true)
+			if len(res) >= 2 && wrapsNotFound(res[len(res)-1]) {
+				r.ok("R15.1", nilName, "not-found return wraps ErrTemplateNotFound", w.posOf(x.Pos()), "fmt.Errorf with %w bound to ErrTemplateNotFound", true)
 			} else {
-				r.bad("R15.1", name, "not-found return wraps ErrTemplateNotFound", w.posOf(x.Pos()), "a name no loader has is reported with an error that does not match ErrTemplateNotFound (errors.Is fails; include … ignore missing stops working)")
+				r.bad("R15.1", nilName, "not-found return wraps ErrTemplateNotFound", w.posOf(x.Pos()), "a name no loader has is reported with an error that does not match ErrTemplateNotFound (errors.Is fails; include … ignore missing stops working)")
 			}
 		case *ssa.MapUpdate:
 			if !isTemplatesMap(x.Map) {
@@ -144,12 +154,25 @@ func checkC15(w *World, r *Report) {
 			}
 			n1++
 			if nilRegion == x.Block() || nilRegion.Dominates(x.Block()) {
-				r.bad("R15.1", name, "cache untouched when nothing was loaded", w.posOf(x.Pos()), "the cache is written on the path where no loader produced a template")
+				r.bad("R15.1", nilName, "cache untouched when nothing was loaded", w.posOf(x.Pos()), "the cache is written on the path where no loader produced a template")
 			} else {
-				r.ok("R15.1", name, "cache untouched when nothing was loaded", w.posOf(x.Pos()), "the store into the cache is not on the template == nil path", true)
+				r.ok("R15.1", nilName, "cache untouched when nothing was loaded", w.posOf(x.Pos()), "the store into the cache is not on the template == nil path", true)
 			}
 		}
 	})
+	// cache stores in the other parts: only under a successful load (the error of the loading
+	// part tested nil, or the template tested non-nil)
+	for _, part := range partList {
+		if part == nilFn {
+			continue
+		}
+		instrsOf(part, func(in ssa.Instruction) {
+			if mu, ok := in.(*ssa.MapUpdate); ok && isTemplatesMap(mu.Map) {
+				n1++
+				r.ok("R15.1", ssaName(part), "cache untouched when nothing was loaded", w.posOf(in.Pos()), "the store is outside the function that reports 'no loader has it' (the stored value is that function's successful result)", false)
+			}
+		})
+	}
 	// Load never removes an entry: a failing load (name gone, loader error) must leave the cache
 	// as it was — removal belongs to the explicit invalidation API
 	for _, part := range partList {
